@@ -242,6 +242,34 @@ func finishRun(rcx *RunCtx) {
 	for _, p := range r.Panics {
 		rcx.Find("C16", "task-panic", p.Task, "panic reached the top of task %s at step %d: %s", p.Task, p.Step, p.Value)
 	}
+	if r.Outcome == "deadlock" || r.Outcome == "budget" {
+		// the scenario was cut short: what the monitors saw until then counts
+		have := map[string]bool{}
+		for _, f := range rcx.Findings {
+			have[f.Prop+f.Key+f.Detail] = true
+		}
+		add := func(f Finding) {
+			if !have[f.Prop+f.Key+f.Detail] {
+				have[f.Prop+f.Key+f.Detail] = true
+				rcx.Findings = append(rcx.Findings, f)
+			}
+		}
+		for _, m := range liveMons {
+			for _, f := range m.Findings {
+				add(f)
+			}
+		}
+		for _, fk := range liveFakes {
+			for _, f := range fk.Findings {
+				add(f)
+			}
+		}
+		for _, fs := range liveFS {
+			for _, v := range fs.Viol {
+				add(Finding{Prop: v.Prop, Oracle: v.Oracle, Detail: v.Detail, Key: v.Key})
+			}
+		}
+	}
 	switch r.Outcome {
 	case "deadlock":
 		rcx.Find("C16", "deadlock", "deadlock", "no task can run: %v", r.Blocked)
@@ -256,6 +284,7 @@ func finishRun(rcx *RunCtx) {
 }
 
 var completionOwned = map[string]string{
+	"C06": "every decodable request gets exactly one reply (the peers of this workload wait for theirs)",
 	"C03": "a client File operation must give the caller what the server-side File returned",
 	"C11": "ReadAt/WriteAt must return the count and error of the chunks issued",
 }
